@@ -2717,6 +2717,125 @@ struct CrudSys {
     stale: Vec<(Arc<PolicyAssignment>, usize, Vec<u8>)>,
     broken: bool,
     last: u8,
+    /// reference content of every defined set: what the accepted add / replace / delete calls
+    /// add up to (add = union, replace = exactly this, delete-part = minus these entries)
+    refsets: std::collections::BTreeMap<(&'static str, usize), Vec<SetEntry>>,
+}
+
+#[derive(Clone, Debug, PartialEq, Eq, PartialOrd, Ord)]
+enum SetEntry {
+    P(String, u8, u8),
+    S(String),
+}
+
+fn sk_name(k: SK) -> &'static str {
+    match k {
+        SK::Prefix => "prefix",
+        SK::AsPath => "aspath",
+        SK::Neighbor => "neighbor",
+        SK::Community => "community",
+        SK::ExtCommunity => "ext",
+        SK::LargeCommunity => "large",
+    }
+}
+
+fn cfg_entries(c: &DefinedSetConfig) -> Vec<SetEntry> {
+    match c {
+        DefinedSetConfig::Prefix { prefixes, .. } => prefixes.iter().map(|p| SetEntry::P(p.ip_prefix.clone(), p.mask_length_min, p.mask_length_max)).collect(),
+        DefinedSetConfig::AsPath { patterns, .. } | DefinedSetConfig::Community { patterns, .. } | DefinedSetConfig::ExtCommunity { patterns, .. } | DefinedSetConfig::LargeCommunity { patterns, .. } => patterns.iter().map(|s| SetEntry::S(s.clone())).collect(),
+        DefinedSetConfig::Neighbor { neighbors, .. } => neighbors.iter().map(|s| SetEntry::S(s.clone())).collect(),
+    }
+}
+
+fn entries_cfg(k: SK, name: usize, es: &[SetEntry]) -> DefinedSetConfig {
+    let name = format!("X{name}");
+    let strs = || es.iter().filter_map(|e| if let SetEntry::S(s) = e { Some(s.clone()) } else { None }).collect::<Vec<_>>();
+    match k {
+        SK::Prefix => DefinedSetConfig::Prefix { name, prefixes: es.iter().filter_map(|e| if let SetEntry::P(p, lo, hi) = e { Some(PrefixConfig { ip_prefix: p.clone(), mask_length_min: *lo, mask_length_max: *hi }) } else { None }).collect() },
+        SK::AsPath => DefinedSetConfig::AsPath { name, patterns: strs() },
+        SK::Neighbor => DefinedSetConfig::Neighbor { name, neighbors: strs() },
+        SK::Community => DefinedSetConfig::Community { name, patterns: strs() },
+        SK::ExtCommunity => DefinedSetConfig::ExtCommunity { name, patterns: strs() },
+        SK::LargeCommunity => DefinedSetConfig::LargeCommunity { name, patterns: strs() },
+    }
+}
+
+const ALL_SK: [SK; 6] = [SK::Prefix, SK::AsPath, SK::Neighbor, SK::Community, SK::ExtCommunity, SK::LargeCommunity];
+
+fn set_members(pt: &PolicyTable) -> Vec<(&'static str, String, String, usize)> {
+    use std::collections::BTreeSet;
+    let mut v = Vec::new();
+    let join = |m: BTreeSet<String>| m.into_iter().collect::<Vec<_>>().join(" ");
+    for s in pt.iter_defined_sets() {
+        match s {
+            DefinedSetRef::Prefix(n, s) => {
+                let mut m = BTreeSet::new();
+                for (a, l, p) in s.v4.iter() {
+                    p.each(&mut |q| {
+                        m.insert(format!("{a}/{l}[{}..{}]", q.min_length, q.max_length));
+                    });
+                }
+                for (a, l, p) in s.v6.iter() {
+                    p.each(&mut |q| {
+                        m.insert(format!("{a}/{l}[{}..{}]", q.min_length, q.max_length));
+                    });
+                }
+                for z in &s.zero {
+                    m.insert(format!("0.0.0.0/0[{}..{}]", z.0, z.1));
+                }
+                for z in &s.zero6 {
+                    m.insert(format!("::/0[{}..{}]", z.0, z.1));
+                }
+                v.push(("prefix", n.to_string(), join(m), 0));
+            }
+            DefinedSetRef::AsPath(n, s) => {
+                let mut m: BTreeSet<String> = s.single_sets.iter().map(|x| format!("{x:?}")).collect();
+                m.extend(s.sets.iter().map(|r| r.as_str().to_string()));
+                v.push(("aspath", n.to_string(), join(m), 0));
+            }
+            DefinedSetRef::Neighbor(n, s) => v.push(("neighbor", n.to_string(), join(s.sets.iter().map(|x| x.to_string()).collect()), 0)),
+            DefinedSetRef::Community(n, s) => v.push(("community", n.to_string(), join(s.sets.iter().map(|r| r.as_str().to_string()).collect()), 0)),
+            DefinedSetRef::ExtCommunity(n, s) => v.push(("ext", n.to_string(), join(s.sets.iter().map(|r| r.as_str().to_string()).collect()), 0)),
+            DefinedSetRef::LargeCommunity(n, s) => v.push(("large", n.to_string(), join(s.sets.iter().map(|r| r.as_str().to_string()).collect()), 0)),
+        }
+    }
+    v.sort();
+    v
+}
+
+/// The sets of the table against the sets of a FRESH table given the reference content in one
+/// call each: a set edited incrementally must be the set its accepted edits add up to.
+fn crud_set_content(sys: &CrudSys) -> Vec<(String, String)> {
+    let mut out = Vec::new();
+    let mut fresh = PolicyTable::new();
+    for ((kind, name), es) in &sys.refsets {
+        if es.is_empty() {
+            continue;
+        }
+        let k = ALL_SK.iter().copied().find(|k| sk_name(*k) == *kind).unwrap();
+        if fresh.add_defined_set(entries_cfg(k, *name, es)).is_err() {
+            // content the table itself refuses in one piece: nothing to compare with
+            return out;
+        }
+    }
+    // members as a set: whether a repeated entry is stored once or twice does not change what
+    // ANY / ALL / INVERT evaluate to, and the order of entries neither
+    let actual = set_members(&sys.pt);
+    let want = set_members(&fresh);
+    for (k, n, d, _) in &want {
+        match actual.iter().find(|(k2, n2, _, _)| k2 == k && n2 == n) {
+            None => out.push(("set-content/set-lost".to_string(), format!("{k}-set {n}: the accepted calls add up to {d} but the table has no such set"))),
+            Some((_, _, d2, _)) if d2 != d => out.push(("set-content/differs".to_string(), format!("{k}-set {n}: the accepted add / replace / delete calls add up to {d}, the table holds {d2}"))),
+            _ => {}
+        }
+    }
+    for (k, n, d, _) in &actual {
+        let key_empty = sys.refsets.iter().any(|((k2, n2), es)| k2 == k && format!("X{n2}") == *n && es.is_empty());
+        if !want.iter().any(|(k2, n2, _, _)| k2 == k && n2 == n) && !key_empty {
+            out.push(("set-content/unexpected-set".to_string(), format!("{k}-set {n} = {d} is in the table although no accepted call created it (or it was deleted)")));
+        }
+    }
+    out
 }
 
 fn slot_dir(i: usize) -> Dir {
@@ -3060,6 +3179,31 @@ impl CrudModel {
     fn do_step(&self, sys: &mut CrudSys, op: &CrudOp, out: &mut Vec<(String, String)>) {
         let held_before: Vec<Option<Arc<PolicyAssignment>>> = sys.slot.iter().cloned().collect();
         let (r, replaced) = self.apply(sys, op);
+        if r.is_ok() {
+            match op {
+                CrudOp::SetAdd(k, n, c) => {
+                    let e = sys.refsets.entry((sk_name(*k), *n)).or_default();
+                    for x in cfg_entries(&crud_set_cfg(*k, *n, *c)) {
+                        if !e.contains(&x) {
+                            e.push(x);
+                        }
+                    }
+                }
+                CrudOp::SetReplace(k, n, c) => {
+                    sys.refsets.insert((sk_name(*k), *n), cfg_entries(&crud_set_cfg(*k, *n, *c)));
+                }
+                CrudOp::SetDelAll(k, n) => {
+                    sys.refsets.remove(&(sk_name(*k), *n));
+                }
+                CrudOp::SetDelPart(k, n, c) => {
+                    let gone = cfg_entries(&crud_set_cfg(*k, *n, *c));
+                    if let Some(e) = sys.refsets.get_mut(&(sk_name(*k), *n)) {
+                        e.retain(|x| !gone.contains(x));
+                    }
+                }
+                _ => {}
+            }
+        }
         sys.last = match &r {
             Ok(()) => 0,
             Err(TableError::StillInUse(_)) => 1,
@@ -3092,6 +3236,12 @@ impl CrudModel {
         for (clause, detail) in crud_integrity(sys) {
             out.push((format!("C14/in-use/{clause}/op={opk}"), format!("after {op:?} -> {res}: {detail}")));
         }
+        // 3. a set edited step by step is the set its accepted edits add up to
+        if matches!(op, CrudOp::SetAdd(..) | CrudOp::SetReplace(..) | CrudOp::SetDelAll(..) | CrudOp::SetDelPart(..)) {
+            for (clause, detail) in crud_set_content(sys) {
+                out.push((format!("C14/crud/{clause}/op={opk}"), format!("after {op:?} -> {res}: {detail}")));
+            }
+        }
         if !out.is_empty() {
             sys.broken = true;
         }
@@ -3118,7 +3268,7 @@ impl bfs::Model for CrudModel {
         format!("{:?}", self.ops[op])
     }
     fn init(&self) -> CrudSys {
-        let mut sys = CrudSys { pt: PolicyTable::new(), slot: [None, None, None], rec: [vec![], vec![], vec![]], stale: vec![], broken: false, last: 0 };
+        let mut sys = CrudSys { pt: PolicyTable::new(), slot: [None, None, None], rec: [vec![], vec![], vec![]], stale: vec![], broken: false, last: 0, refsets: Default::default() };
         let mut sink = Vec::new();
         for &o in &self.prefix {
             self.do_step(&mut sys, &self.ops[o], &mut sink);
